@@ -107,45 +107,162 @@ theorem abs_deleteValue {h : Hist} (r : Reachable h) (a k : Nat) :
     · rfl
     · split <;> rfl
 
-/-- deploying code `c` (InitContractAccount + DeployContract + AcceptContract): the account is a
-    contract with current code `c`; balance, storage and all other accounts are untouched -/
-theorem abs_deploy {h : Hist} (r : Reachable h) (a c : Nat) :
-    obsCode ((h.w.deploy a c).abs a) = some c ∧
-    obsBal ((h.w.deploy a c).abs a) = obsBal (h.w.abs a) ∧
-    (∀ k, obsGet ((h.w.deploy a c).abs a) k = obsGet (h.w.abs a) k) ∧
-    ∀ b, b ≠ a → (h.w.deploy a c).abs b = h.w.abs b := by
-  have m := mutate_abs h.w _ (reachable_inv r) a (fun st => st.deploy c)
-  simp only at m
-  unfold World.deploy
-  refine ⟨?_, ?_, ?_, m.2.2⟩
-  · rw [m.1, (obs_absSt _).2.2.1]; rfl
-  · rw [m.1, ← m.2.1, (obs_absSt _).1, (obs_absSt _).1]; rfl
-  · intro k; rw [m.1, ← m.2.1, (obs_absSt _).2.1, (obs_absSt _).2.1]; rfl
+/-- what a mutation of the contract part leaves alone: balance, storage, other accounts -/
+theorem abs_contract_frame {h : Hist} (r : Reachable h) (a : Nat) (f : AState → AState)
+    (hb : ∀ x, (f x).hdr.bal = x.hdr.bal) (hs : ∀ x, (f x).store = x.store) :
+    let w' := (h.w.getAccountState a).1.putState a (f (h.w.getAccountState a).2)
+    obsBal (w'.abs a) = obsBal (h.w.abs a) ∧ (∀ k, obsGet (w'.abs a) k = obsGet (h.w.abs a) k) ∧
+    ∀ b, b ≠ a → w'.abs b = h.w.abs b := by
+  have m := mutate_abs h.w _ (reachable_inv r) a f
+  simp only at m ⊢
+  refine ⟨?_, ?_, m.2.2⟩
+  · rw [m.1, ← m.2.1, (obs_absSt _).1, (obs_absSt _).1, hb]
+  · intro k; rw [m.1, ← m.2.1, (obs_absSt _).2.1, (obs_absSt _).2.1, hs]
 
-/-- SetObjGraph on a contract account: the object graph of its current contract becomes
-    `Changed(nh, g)`; balance, code, storage and all other accounts are untouched -/
-theorem abs_setObjGraph {h : Hist} (r : Reachable h) (a nh g c : Nat) (hc : obsCode (h.w.abs a) = some c) :
+/-- InitContractAccount: the account is a contract afterwards; its current / next contract are
+    what they were if it already was one -/
+theorem abs_initContract {h : Hist} (r : Reachable h) (a : Nat) :
+    obsIsContract ((h.w.initContract a).abs a) = true ∧
+    (obsIsContract (h.w.abs a) = true → (h.w.initContract a).abs a = h.w.abs a) := by
+  have m := mutate_abs h.w _ (reachable_inv r) a (fun st => st.initContract)
+  simp only at m
+  unfold World.initContract
+  constructor
+  · rw [m.1, (obs_absSt _).2.2.1]
+    unfold AState.initContract; split
+    · rename_i hc; exact hc
+    · rfl
+  · intro hc
+    rw [← m.2.1, (obs_absSt _).2.2.1] at hc
+    rw [m.1, ← m.2.1]
+    unfold AState.initContract; rw [if_pos hc]
+
+/-- DeployContract(c) on a contract account: the next contract becomes (c, pending); the
+    current contract and its object graph stay -/
+theorem abs_deployContract {h : Hist} (r : Reachable h) (a c : Nat) (hc : obsIsContract (h.w.abs a) = true) :
+    obsNext ((h.w.deployContract a c).abs a) = some (c, false) ∧
+    obsCur ((h.w.deployContract a c).abs a) = obsCur (h.w.abs a) ∧
+    obsGraph ((h.w.deployContract a c).abs a) = obsGraph (h.w.abs a) ∧
+    obsIsContract ((h.w.deployContract a c).abs a) = true := by
+  have m := mutate_abs h.w _ (reachable_inv r) a (fun st => st.deployContract c)
+  simp only at m
+  unfold World.deployContract
+  rw [← m.2.1, (obs_absSt _).2.2.1] at hc
+  have hs : (h.w.getAccountState a).2.deployContract c =
+      { (h.w.getAccountState a).2 with hdr := { (h.w.getAccountState a).2.hdr with next := some (c, false) }, last := none } := by
+    unfold AState.deployContract; simp [hc]
+  have o1 := (obs_absSt ((h.w.getAccountState a).2.deployContract c))
+  have o0 := (obs_absSt (h.w.getAccountState a).2)
+  have hc' : ((h.w.getAccountState a).2.deployContract c).hdr.isContract = true := by rw [hs]; exact hc
+  rw [m.1, ← m.2.1]
+  refine ⟨?_, ?_, ?_, ?_⟩
+  · rw [(o1.2.2.2 hc').2.1, hs]
+  · rw [(o1.2.2.2 hc').1, (o0.2.2.2 hc).1, hs]
+  · rw [(o1.2.2.2 hc').2.2, (o0.2.2.2 hc).2.2, hs]; rfl
+  · rw [o1.2.2.1]; exact hc'
+
+/-- AcceptContract(c) with a pending next contract c: it becomes the current contract, the next
+    contract is gone; in every other situation (no next, other tx hash, rejected) nothing changes -/
+theorem abs_acceptContract {h : Hist} (r : Reachable h) (a c : Nat) :
+    (obsIsContract (h.w.abs a) = true → obsNext (h.w.abs a) = some (c, false) →
+      (h.w.acceptContract a c).2 = true ∧
+      obsCur ((h.w.acceptContract a c).1.abs a) = some c ∧ obsNext ((h.w.acceptContract a c).1.abs a) = none) ∧
+    ((h.w.acceptContract a c).2 = false → (h.w.acceptContract a c).1.abs a = h.w.abs a) := by
+  have m := mutate_abs h.w _ (reachable_inv r) a (fun st => (st.acceptContract c).1)
+  simp only at m
+  unfold World.acceptContract
+  simp only
+  have o0 := (obs_absSt (h.w.getAccountState a).2)
+  constructor
+  · intro hc hn
+    rw [← m.2.1, o0.2.2.1] at hc
+    rw [← m.2.1, (o0.2.2.2 hc).2.1] at hn
+    have hs : (h.w.getAccountState a).2.acceptContract c =
+        ({ (h.w.getAccountState a).2 with hdr := { (h.w.getAccountState a).2.hdr with cur := some c, next := none }, last := none }, true) := by
+      unfold AState.acceptContract; rw [hc, hn]; simp
+    have o1 := obs_absSt ((h.w.getAccountState a).2.acceptContract c).1
+    have hc' : ((h.w.getAccountState a).2.acceptContract c).1.hdr.isContract = true := by rw [hs]; exact hc
+    refine ⟨by rw [hs], ?_, ?_⟩
+    · rw [m.1, (o1.2.2.2 hc').1, hs]
+    · rw [m.1, (o1.2.2.2 hc').2.1, hs]
+  · intro hf
+    rw [m.1, ← m.2.1]
+    have : ((h.w.getAccountState a).2.acceptContract c).1 = (h.w.getAccountState a).2 := by
+      unfold AState.acceptContract at hf ⊢
+      split at hf
+      · split at hf
+        · simp_all
+        · split at hf
+          · simp_all
+          · simp at hf
+      · simp_all
+    rw [this]
+
+/-- RejectContract(c) with a pending next contract c: it stays as the next contract, marked
+    rejected; the current contract is untouched; otherwise nothing changes -/
+theorem abs_rejectContract {h : Hist} (r : Reachable h) (a c : Nat) :
+    (obsIsContract (h.w.abs a) = true → obsNext (h.w.abs a) = some (c, false) →
+      (h.w.rejectContract a c).2 = true ∧
+      obsNext ((h.w.rejectContract a c).1.abs a) = some (c, true) ∧
+      obsCur ((h.w.rejectContract a c).1.abs a) = obsCur (h.w.abs a)) ∧
+    ((h.w.rejectContract a c).2 = false → (h.w.rejectContract a c).1.abs a = h.w.abs a) := by
+  have m := mutate_abs h.w _ (reachable_inv r) a (fun st => (st.rejectContract c).1)
+  simp only at m
+  unfold World.rejectContract
+  simp only
+  have o0 := (obs_absSt (h.w.getAccountState a).2)
+  constructor
+  · intro hc hn
+    rw [← m.2.1, o0.2.2.1] at hc
+    rw [← m.2.1, (o0.2.2.2 hc).2.1] at hn
+    have hs : (h.w.getAccountState a).2.rejectContract c =
+        ({ (h.w.getAccountState a).2 with hdr := { (h.w.getAccountState a).2.hdr with next := some (c, true) }, last := none }, true) := by
+      unfold AState.rejectContract; rw [hc, hn]; simp
+    have o1 := obs_absSt ((h.w.getAccountState a).2.rejectContract c).1
+    have hc' : ((h.w.getAccountState a).2.rejectContract c).1.hdr.isContract = true := by rw [hs]; exact hc
+    refine ⟨by rw [hs], ?_, ?_⟩
+    · rw [m.1, (o1.2.2.2 hc').2.1, hs]
+    · rw [m.1, ← m.2.1, (o1.2.2.2 hc').1, (o0.2.2.2 hc).1, hs]
+  · intro hf
+    rw [m.1, ← m.2.1]
+    have : ((h.w.getAccountState a).2.rejectContract c).1 = (h.w.getAccountState a).2 := by
+      unfold AState.rejectContract at hf ⊢
+      split at hf
+      · split at hf
+        · simp_all
+        · split at hf
+          · simp_all
+          · simp at hf
+      · simp_all
+    rw [this]
+
+/-- SetObjGraph on a contract account with a current contract: the object graph of that contract
+    becomes `Changed(nh, g)`; current / next contract are untouched -/
+theorem abs_setObjGraph {h : Hist} (r : Reachable h) (a nh g c : Nat)
+    (hi : obsIsContract (h.w.abs a) = true) (hc : obsCur (h.w.abs a) = some c) :
     obsGraph ((h.w.setObjGraph a nh g).abs a) = graphChanged nh g ∧
-    obsCode ((h.w.setObjGraph a nh g).abs a) = some c ∧
-    obsBal ((h.w.setObjGraph a nh g).abs a) = obsBal (h.w.abs a) ∧
-    (∀ k, obsGet ((h.w.setObjGraph a nh g).abs a) k = obsGet (h.w.abs a) k) ∧
-    ∀ b, b ≠ a → (h.w.setObjGraph a nh g).abs b = h.w.abs b := by
+    obsCur ((h.w.setObjGraph a nh g).abs a) = some c ∧
+    obsNext ((h.w.setObjGraph a nh g).abs a) = obsNext (h.w.abs a) := by
   have m := mutate_abs h.w _ (reachable_inv r) a (fun st => st.setObjGraph nh g)
   simp only at m
   unfold World.setObjGraph
-  rw [← m.2.1, (obs_absSt _).2.2.1] at hc
+  have o0 := (obs_absSt (h.w.getAccountState a).2)
+  rw [← m.2.1, o0.2.2.1] at hi
+  rw [← m.2.1, (o0.2.2.2 hi).1] at hc
   have hs : (h.w.getAccountState a).2.setObjGraph nh g =
       { (h.w.getAccountState a).2 with
         hdr := { (h.w.getAccountState a).2.hdr with og := ogSet (h.w.getAccountState a).2.hdr.og c (graphChanged nh g) },
         last := none } := by
     unfold AState.setObjGraph; rw [hc]
-  refine ⟨?_, ?_, ?_, ?_, m.2.2⟩
-  · rw [m.1, (obs_absSt _).2.2.2, hs]
+  have o1 := obs_absSt ((h.w.getAccountState a).2.setObjGraph nh g)
+  have hi' : ((h.w.getAccountState a).2.setObjGraph nh g).hdr.isContract = true := by rw [hs]; exact hi
+  rw [m.1]
+  refine ⟨?_, ?_, ?_⟩
+  · rw [(o1.2.2.2 hi').2.2, hs]
     simp only [Hdr.graph, hc, Option.bind_some]
     exact ogGet_ogSet _ _ _
-  · rw [m.1, (obs_absSt _).2.2.1, hs]; exact hc
-  · rw [m.1, ← m.2.1, (obs_absSt _).1, (obs_absSt _).1, hs]
-  · intro k; rw [m.1, ← m.2.1, (obs_absSt _).2.1, (obs_absSt _).2.1, hs]
+  · rw [(o1.2.2.2 hi').1, hs]; exact hc
+  · rw [(o1.2.2.2 hi').2.1, ← m.2.1, (o0.2.2.2 hi).2.1, hs]
 
 /-! ### the property -/
 
